@@ -607,6 +607,11 @@ def method(E, st, recv: V, name, args, kw, n):
             v._keys_of = recv
             yield st, v
             return
+        if name == "items" and not args:
+            v = V(Ty("dictitems"), None)
+            v._items_of = recv
+            yield st, v
+            return
         if name == "values" and not args:
             v = V(Ty("dictvalues"), None)
             v._values_of = recv
@@ -645,6 +650,20 @@ def method(E, st, recv: V, name, args, kw, n):
             else:
                 odom = st.dict_get(other)[0] if is_dictlike(other.ty) else ops.set_parts(st, other)
                 st.set_set(r, named_set(st, et, lambda x: z3.Or(z3.Select(dom, x), z3.Select(odom, x)), "union"))
+            yield st, r
+            return
+        if name == "difference" and len(args) == 1:
+            other = args[0]
+            r = st.new_ref(SET(et))
+            if is_listlike(other.ty) or other.ty.kind == "seq":
+                sq = ops.as_seq(st, other)
+                if sq.t is None:
+                    st.set_set(r, dom)
+                else:
+                    st.set_set(r, named_set(st, et, lambda x: z3.And(z3.Select(dom, x), z3.Not(z3.Contains(sq.t, z3.Unit(x)))), "diff"))
+            else:
+                odom = st.dict_get(other)[0] if is_dictlike(other.ty) else ops.set_parts(st, other)
+                st.set_set(r, named_set(st, et, lambda x: z3.And(z3.Select(dom, x), z3.Not(z3.Select(odom, x))), "diff"))
             yield st, r
             return
         if name == "intersection":
